@@ -50,7 +50,7 @@ func run(dir string, env []string, name string, args ...string) (string, error) 
 // generate copies the repository to scratch, adds the extra corpus, builds cff
 // from that copy and runs it over internal/tests. It returns the directory of
 // the generated module.
-func generate(repo, scratch, corpus string, mode string, extra []string) (*gen, error) {
+func generate(repo, scratch, corpus string, mode string, extra []string, patterns ...string) (*gen, error) {
 	os.MkdirAll(scratch, 0o755)
 	g := &gen{repo: repo, scratch: scratch, work: filepath.Join(scratch, "repo")}
 	if out, err := run("/", nil, "rsync", "-a", "--exclude", ".git", "--exclude", "/out", repo+"/", g.work+"/"); err != nil {
@@ -94,11 +94,16 @@ func generate(repo, scratch, corpus string, mode string, extra []string) (*gen, 
 		args = append(args, "-genmode", mode)
 	}
 	args = append(args, extra...)
-	args = append(args, "./...")
-	out, err := run(tests, nil, cff, args...)
-	g.log = append(g.log, strings.TrimSpace(out))
-	if err != nil {
-		return g, fmt.Errorf("cff failed on the corpus: %v: %s", err, lastLines(out, 15))
+	if len(patterns) == 0 {
+		patterns = []string{"./..."}
+	}
+	// cff takes one import path per invocation
+	for _, pat := range patterns {
+		out, err := run(tests, nil, cff, append(append([]string(nil), args...), pat)...)
+		g.log = append(g.log, strings.TrimSpace(out))
+		if err != nil {
+			return g, fmt.Errorf("cff failed on the corpus: %v: %s", err, lastLines(out, 15))
+		}
 	}
 	return g, nil
 }
@@ -541,6 +546,60 @@ func passG(repo string, cfg *vc.SolverConfig, only, corpus, scratch string, thor
 			compareTokens(sink, tests, vtests)
 		}
 		os.RemoveAll(gv.work)
+	}
+
+	// modifier mode (C20, second half): the flows of the modifier-supported subset
+	// are generated with -genmode modifier and every wrapper / task closure is
+	// checked against the modflow role contracts, which state the same results
+	// and errors as the base-mode roles
+	if only == "" || strings.Contains(only, "modifier") || strings.Contains(only, "modflow") {
+		modPatterns := []string{"./modifier/..."}
+		if _, err := os.Stat(filepath.Join(tests, "zzcorpus", "modflow")); err == nil {
+			modPatterns = append(modPatterns, "./zzcorpus/modflow/...")
+		}
+		gm, err := generate(repo, filepath.Join(scratch, "modifier"), corpus, "modifier", nil, modPatterns...)
+		if err != nil {
+			if gm == nil {
+				return nil, err
+			}
+			structural(sink, "generator:modifier", "accepts", "corpus-accepted", []string{"C20"}, false, err.Error())
+		} else {
+			structural(sink, "generator:modifier", "accepts", "corpus-accepted", []string{"C20"}, true, "cff -genmode modifier exited 0 on the modifier corpus")
+		}
+		mtests := filepath.Join(gm.work, "internal", "tests")
+		lrm, badm, err := vc.LoadLenient(mtests, nil, modPatterns...)
+		if err != nil {
+			return nil, fmt.Errorf("cannot load the generated corpus (modifier): %v", err)
+		}
+		outputChecks(sink, "modifier", lrm, badm, directives, modPrefix)
+		xm := vc.NewExec(ctx, lrm.Prog, sink)
+		xm.RegisterStdModels()
+		gm2 := &gpass{x: xm, lr: lrm, roles: roleSpecs, res: res, only: only, roleCount: gp.roleCount, flagSeen: gp.flagSeen, testsDir: mtests, modifier: true}
+		gm2.configure()
+		gm2.registerWrapperModels()
+		nmod := 0
+		for _, w := range findWrappers(lrm, modPrefix) {
+			if w.kind != "flow" {
+				continue
+			}
+			w.kind = "modflow"
+			nmod++
+			gm2.verifyWrapper(w)
+			for _, jc := range w.closures {
+				if jc.role == "flow-task" {
+					jc.role = "modflow-task"
+				}
+				gp.roleCount[jc.role]++
+				if _, ok := roleSpecs[jc.role]; !ok || jc.role == "unrecognised" {
+					structural(sink, "role:unrecognised", "shape", "every-enqueued-closure-of-a-modifier-flow-has-a-role", []string{"C20"}, false, w.name+": "+jc.role)
+					continue
+				}
+				gm2.verifyClosure(w, jc)
+			}
+		}
+		structural(sink, "role:unrecognised", "shape", "every-enqueued-closure-of-a-modifier-flow-has-a-role", []string{"C20"}, nmod > 0, fmt.Sprintf("%d modifier-mode flows", nmod))
+		res.Extra["modifier_flows"] = nmod
+		os.RemoveAll(gm.work)
 	}
 
 	res.Extra["programs"] = len(lr.Pkgs)
